@@ -458,3 +458,34 @@ def rule_identity_expansion(P):
                    "the skipped identity levels of the source are rebuilt with resF->makeIdentitiesTo() whatever the target's labeling: in an EV+ target the off-diagonal entries of the pattern are +infinity, in the multi-terminal source they are 0", k.line))
     R.require_floor(2, "identity expansions in copy_MT")
     return R
+
+
+def rule_special_terminal(P):
+    """an EV+ (or index-set) function has one value that is not an edge value: +infinity, the terminal OMEGA_INFINITY.  A copy that turns the edge value
+    accumulated at a terminal into a multi-terminal value (av.copyInto(...) → handleForValue) must first ask which terminal it reached; otherwise a
+    state the source maps to +infinity receives the partial sum of the edge values on its path — an ordinary integer.  The source says so itself:
+    "if (OMEGA_INFINITY == ap) then what???" (triage/t32.cc: non-members of an index set copied into an MT integer forest carry members' indexes)"""
+    R = RuleResult("dispatch.special-terminal", "in every copy_EV<EdgeOp_plus<T>>::_compute: the conversion of the accumulated edge value into a terminal of a multi-terminal target (copyInto → handleForValue) is governed by a test of the source terminal against OMEGA_INFINITY")
+    n = 0
+    for f in sorted(P.fns.values(), key=lambda f: (f["file"], f["line"], f["inst"])):
+        if not f.get("cfg") or not re.search(r"copy_EV<.*EdgeOp_plus<.*>::_compute$", f["q"]):
+            continue
+        g = Graph(f)
+        sinks = [k for k in g.nodes if k.kind == "call" and k.ev["q"].endswith("edge_value::copyInto")]
+        if not sinks:
+            raise AnalysisBroken("dispatch.special-terminal: %s no longer converts an edge value with copyInto" % f["q"])
+        n += 1
+        R.functions.add(f["inst"])
+        R.paths += 1
+        tests = [b for b in g.nodes if b.kind == "branch" and b.cond and "OMEGA_INFINITY" in (b.cond.get("text") or "")]
+        iid = "%s: +infinity terminal told apart before the edge value becomes a terminal" % base_name(f["q"]).replace(M, "")
+        ok = bool(tests) and not any(g.path(g.entry, lambda x, k=k: x.id == k.id, avoid=lambda x: any(x.id == t.id for t in tests)) for k in sinks)
+        if ok:
+            R.ok(iid, where(f, sinks[0].line))
+        else:
+            R.fail(iid, where(f, sinks[0].line), Finding(R.rule, f["file"], base_name(f["q"]), "infinity-terminal",
+                   "the accumulated edge value is converted into a multi-terminal value without asking whether the source terminal is OMEGA_INFINITY: states the source maps to +infinity get the partial sum of their path as an ordinary value", sinks[0].line, inst=None))
+    if n < 1:
+        raise AnalysisBroken("dispatch.special-terminal: no copy_EV<EdgeOp_plus<…>>::_compute instantiation found")
+    R.require_floor(1, "EV+ push-down copies")
+    return R
